@@ -65,6 +65,44 @@ def Sane {α} (O : Ops α) (x y : α) : Prop :=
   (O.eq x y = true → O.lt x y = .ok false ∧ O.gt x y = .ok false) ∧
   (O.eq x y = false → O.le x y = O.lt x y ∧ O.ge x y = O.gt x y)
 
+
+/-! ### the class-identity guard in front of the comparison
+
+Both sources test the operand classes before comparing any field and answer `NotImplemented`
+(`none` below) otherwise: CPython `if other.__class__ is self.__class__`, Cython
+`if other.__class__ is not self.__class__: return NotImplemented`.  `Rel` is the class of `other`
+relative to the class of `self`; `inDef` says whether `other` is an instance of the class that
+DEFINES the method (relevant only for a guard written as `isinstance(other, <defining class>)`:
+two sibling subclasses are unrelated to each other but both instances of the defining base). -/
+inductive Rel where
+  | same | sub | super | unrelated
+  deriving DecidableEq, Repr
+
+/-- the guard found in the method text (regenerated from `generate_cmp_code` by the harness) -/
+inductive Guard where
+  | exact        -- `other.__class__ is not self.__class__`
+  | isinstance   -- `not isinstance(other, <defining class>)`
+  deriving DecidableEq, Repr
+
+def guardPass : Guard → Rel → Bool → Bool
+  | .exact, r, _ => r == .same
+  | .isinstance, r, inDef => r == .same || r == .sub || inDef
+
+/-- result of `type(self).__op__(self, other)`: `none` = NotImplemented -/
+def pyMethod {α} (O : Ops α) (op : Op) (rel : Rel) (ps : List (α × α)) : Option (Res Bool) :=
+  if rel == .same then some (pyCmp O op ps) else none
+
+def cyMethod {α} (g : Guard) (O : Ops α) (op : Op) (rel : Rel) (inDef : Bool) (ps : List (α × α)) :
+    Option (Res Bool) :=
+  if guardPass g rel inDef then some (cyCmp O op ps) else none
+
+/-- obligation on the regenerated guard: it lets exactly the same-class operands through -/
+def GuardWF (g : Guard) : Prop :=
+  ∀ inDef : Bool, guardPass g .same inDef = true ∧ guardPass g .sub inDef = false ∧
+    guardPass g .super inDef = false ∧ guardPass g .unrelated inDef = false
+
+instance (g : Guard) : Decidable (GuardWF g) := by unfold GuardWF; infer_instance
+
 /-! concrete values for the differential run -/
 inductive Val where
   | int (n : Int)
@@ -112,7 +150,26 @@ def renderB : Res Bool → String
 def parseVals (s : String) : Option (List Val) :=
   if s == "-" then some [] else (s.splitOn ",").mapM parseVal
 
+def parseRel : String → Option Rel
+  | "same" => some .same | "sub" => some .sub | "super" => some .super
+  | "unrelated" => some .unrelated | _ => none
+
+def parseGuard : String → Option Guard
+  | "exact" => some .exact | "isinstance" => some .isinstance | _ => none
+
+def renderM : Option (Res Bool) → String
+  | none => "ok NotImplemented"
+  | some r => renderB r
+
 def handle : List String → String
+  | [who, op, xs, ys, rel, inDef, guard] =>
+    match parseOp op, parseVals xs, parseVals ys, parseRel rel, parseGuard guard with
+    | some op, some xs, some ys, some rel, some g =>
+      if xs.length != ys.length || (inDef != "0" && inDef != "1") then "bad-op"
+      else if who == "py" then renderM (pyMethod valOps op rel (xs.zip ys))
+      else if who == "cy" then renderM (cyMethod g valOps op rel (inDef == "1") (xs.zip ys))
+      else "bad-op"
+    | _, _, _, _, _ => "bad-op"
   | [who, op, xs, ys] =>
     match parseOp op, parseVals xs, parseVals ys with
     | some op, some xs, some ys =>
